@@ -9,7 +9,164 @@ import re, hashlib
 from ..model import H
 from .common import *
 
+SHIM = r"""
+// ---------------------------------------------------------------------------------------------------------------
+// environment model for the include expander: a file system of two directories (d0, d1 = d0/s) and three file slots;
+// std::path::{Path, PathBuf}, std::fs::File, HashSet, MechError/GenericError are replaced by small deterministic types with the
+// same contracts (the names shadow the std ones for the extracted code, which is compiled unchanged)
+pub mod shim {
+  pub const W: usize = 9;            // every line is W bytes including its '\n'
+  pub const MAXL: usize = 3;
+  #[derive(Clone, Copy, PartialEq, Eq)]
+  pub struct Path { pub dir: u8, pub name: u8 }        // name 0 = the directory itself; 255 = a path that names nothing
+  #[derive(Clone, PartialEq, Eq)]
+  pub struct PathBuf(pub Path);
+  impl std::ops::Deref for PathBuf { type Target = Path; fn deref(&self) -> &Path { &self.0 } }
+  pub static DIRS: [Path; 2] = [Path { dir: 0, name: 0 }, Path { dir: 1, name: 0 }];
+  pub struct Disp;
+  impl std::fmt::Display for Disp { fn fmt(&self, _f: &mut std::fmt::Formatter<'_>) -> std::fmt::Result { Ok(()) } }
+  #[derive(Clone, Copy)]
+  pub struct FileSlot { pub dir: u8, pub name: u8, pub exists: bool, pub nlines: usize, pub kinds: [u8; MAXL] }
+  pub struct Fs { pub files: [FileSlot; 3] }
+  pub static mut FS: Fs = Fs { files: [FileSlot { dir: 0, name: 0, exists: false, nlines: 0, kinds: [0; MAXL] }; 3] };
+  pub fn fs() -> &'static Fs { unsafe { &*(&raw const FS) } }
+  pub fn slot_of(p: &Path) -> Option<usize> {
+    let fs = fs();
+    let mut i = 0;
+    while i < 3 { let f = &fs.files[i]; if f.exists && f.dir == p.dir && f.name == p.name && p.name != 0 && p.name != 255 { return Some(i); } i += 1; }
+    None
+  }
+  impl Path {
+    pub fn new(_s: &str) -> &'static Path { &DIRS[0] }
+    pub fn parent(&self) -> Option<&Path> { if self.name == 0 { None } else { Some(&DIRS[self.dir as usize]) } }
+    pub fn join(&self, raw: &str) -> PathBuf {
+      // relative spellings the model knows: `x.mec`, `s/x.mec` (from d0), `../x.mec` (from d1 = d0/s); x one ASCII letter
+      let b = raw.as_bytes();
+      let bad = PathBuf(Path { dir: self.dir, name: 255 });
+      if self.name != 0 { return bad; }
+      if b.len() == 5 && b[1] == b'.' && b[2] == b'm' && b[3] == b'e' && b[4] == b'c' { return PathBuf(Path { dir: self.dir, name: b[0] }); }
+      if b.len() == 7 && b[0] == b's' && b[1] == b'/' && b[3] == b'.' && b[4] == b'm' && b[5] == b'e' && b[6] == b'c' {
+        return if self.dir == 0 { PathBuf(Path { dir: 1, name: b[2] }) } else { bad };
+      }
+      if b.len() == 8 && b[0] == b'.' && b[1] == b'.' && b[2] == b'/' && b[4] == b'.' && b[5] == b'm' && b[6] == b'e' && b[7] == b'c' {
+        return if self.dir == 1 { PathBuf(Path { dir: 0, name: b[3] }) } else { bad };
+      }
+      bad
+    }
+    pub fn canonicalize(&self) -> Result<PathBuf, ()> { if slot_of(self).is_some() { Ok(PathBuf(*self)) } else { Err(()) } }
+    pub fn display(&self) -> Disp { Disp }
+  }
+  pub struct File { slot: usize }
+  impl File {
+    pub fn open(p: &PathBuf) -> Result<File, ()> { match slot_of(&p.0) { Some(s) => Ok(File { slot: s }), None => Err(()) } }
+    pub fn read_to_string(&mut self, out: &mut String) -> Result<usize, ()> {
+      let f: FileSlot = fs().files[self.slot];
+      let mut i = 0;
+      while i < f.nlines { out.push_str(line_text(f.kinds[i])); i += 1; }
+      Ok(f.nlines * W)
+    }
+  }
+  pub struct HashSet<T> { v: Vec<T> }
+  impl<T: PartialEq> HashSet<T> {
+    pub fn new() -> Self { HashSet { v: Vec::new() } }
+    pub fn contains(&self, x: &T) -> bool { let mut i = 0; while i < self.v.len() { if self.v[i] == *x { return true; } i += 1; } false }
+    pub fn insert(&mut self, x: T) -> bool { if self.contains(&x) { false } else { self.v.push(x); true } }
+    pub fn remove(&mut self, x: &T) -> bool { let mut i = 0; while i < self.v.len() { if self.v[i] == *x { self.v.swap_remove(i); return true; } i += 1; } false }
+  }
+  pub struct GenericError { pub msg: String }
+  pub struct MechError { pub msg: String }
+  impl MechError {
+    pub fn new(k: GenericError, _t: Option<()>) -> MechError { MechError { msg: k.msg } }
+    pub fn with_compiler_loc(self) -> MechError { self }
+  }
+  pub type MResult<T> = Result<T, MechError>;
+  // line kinds (every text is W bytes)
+  pub const K_TEXT: u8 = 0; pub const K_INC_A: u8 = 1; pub const K_INC_B: u8 = 2; pub const K_INC_C: u8 = 3; pub const K_F3: u8 = 4;
+  pub const K_F4: u8 = 5; pub const K_T3: u8 = 6; pub const K_BRACE: u8 = 7; pub const K_INLINE: u8 = 8; pub const K_INC_A_IND: u8 = 9;
+  pub const K_F3_IND4: u8 = 10; pub const NKINDS: u8 = 11;
+  pub fn line_text(k: u8) -> &'static str {
+    match k {
+      0 => "x := 1+2\n", 1 => "{a.mec} \n", 2 => "{b.mec} \n", 3 => "{c.mec} \n", 4 => "```     \n", 5 => "````    \n", 6 => "~~~     \n",
+      7 => "{x}     \n", 8 => "y{a.mec}\n", 9 => " {a.mec}\n", _ => "    ``` \n",
+    }
+  }
+}
+use shim::{Path, PathBuf, File, HashSet, GenericError, MechError, MResult};
+"""
+
+ORACLE = r"""
+  use super::shim::*;
+  pub fn verif_stub_memchr(x: u8, text: &[u8]) -> Option<usize> { let mut i = 0; while i < text.len() { if text[i] == x { return Some(i); } i += 1; } None }
+  // reference model: structural expansion over line kinds.  Err(1) = circular include, Err(2) = include failed
+  fn inc_target(k: u8, dir: u8) -> Option<(u8, u8)> {
+    match k { K_INC_A | K_INC_A_IND => Some((dir, b'a')), K_INC_B => Some((dir, b'b')), K_INC_C => Some((dir, b'c')), _ => None }
+  }
+  fn oracle(slot: usize, active: &mut [bool; 3], out: &mut String, depth: usize) -> Result<(), u8> {
+    if active[slot] { return Err(1); }
+    active[slot] = true;
+    let f: FileSlot = fs().files[slot];
+    let mut fence: Option<(u8, usize)> = None;
+    let mut i = 0;
+    while i < f.nlines {
+      let k = f.kinds[i];
+      let t = line_text(k);
+      let as_fence: Option<(u8, usize)> = match k { K_F3 => Some((b'`', 3)), K_F4 => Some((b'`', 4)), K_T3 => Some((b'~', 3)), _ => None };
+      if let Some((m, n)) = fence {
+        out.push_str(t);
+        if let Some((m2, n2)) = as_fence { if m2 == m && n2 >= n { fence = None; } }
+      } else if as_fence.is_some() {
+        fence = as_fence; out.push_str(t);
+      } else if let Some((d, nm)) = inc_target(k, f.dir) {
+        match slot_of(&Path { dir: d, name: nm }) {
+          None => return Err(2),
+          Some(s2) => { oracle(s2, active, out, depth + 1)?; out.push_str("\n"); }
+        }
+      } else { out.push_str(t); }
+      i += 1;
+    }
+    active[slot] = false;
+    Ok(())
+  }
+"""
+
+HBODY = r"""let n = [%(n0)dusize, %(n1)d, %(n2)d];
+    let layout = [(0u8, b'a'), (0u8, b'b'), (0u8, b'c')];
+    let mut s = 0;
+    while s < 3 {
+      let mut kinds = [0u8; MAXL];
+      let mut j = 0;
+      while j < n[s] { let k: u8 = kani::any(); kani::assume(k < NKINDS); kinds[j] = k; j += 1; }
+      let ex: bool = if s == 0 { true } else { kani::any() };
+      unsafe { (*(&raw mut FS)).files[s] = FileSlot { dir: layout[s].0, name: layout[s].1, exists: ex, nlines: n[s], kinds }; }
+      s += 1;
+    }
+    let entry = Path { dir: 0, name: b'a' };
+    let got = expand_mechdown_includes(&entry);
+    let mut want = String::new();
+    let mut active = [false; 3];
+    let w = oracle(0, &mut active, &mut want, 0);
+    match (got, w) {
+      (Ok(g), Ok(())) => {
+        kani::cover!(g.len() != %(n0)d * W, "VP:reached-nested");
+        assert!(g.len() == want.len(), "VP:expansion-length-differs");
+        let gb = g.as_bytes(); let wb = want.as_bytes(); let mut i = 0;
+        while i < gb.len() && i < wb.len() { assert!(gb[i] == wb[i], "VP:expansion-differs-from-substitution"); i += 1; }
+        forget(g);
+      }
+      (Err(e), Err(code)) => {
+        kani::cover!(code == 1, "VP:reached-cycle"); kani::cover!(code == 2, "VP:reached-missing");
+        let circ = e.msg.len() != 0;      // std::fmt::format is stubbed to the empty string; only the circular-include message is a literal
+        assert!(circ == (code == 1), "VP:wrong-error-kind"); forget(e);
+      }
+      (Ok(g), Err(code)) => { forget(g); assert!(code != 1, "VP:value-for-cyclic-include"); assert!(code != 2, "VP:value-for-missing-include"); }
+      (Err(e), Ok(())) => { forget(e); assert!(false, "VP:error-for-loadable-file"); }
+    }
+    forget(want);"""
+
 CRATE = "x_mechfs"
+CRATE2 = "x_mechfs_inc"
+# (lines of a.mec, b.mec, c.mec, tier)
+INC_SHAPES = [(2, 1, 0, "off"), (2, 2, 1, "off")]
 WHERE = (CRATE, "src/lib.rs")
 FNS = ["looks_like_mech_include", "code_fence_delimiter", "is_code_fence_close", "standalone_braced_content"]
 N = 6
@@ -97,17 +254,38 @@ def plan(tier, seed):
     hs.append(H("c20_looks_like_mech_include", "    " + "\n    ".join(b), WHERE, domain="accept", key="looks_like_mech_include",
                 desc="looks_like_mech_include on printable-ASCII strings of <= 7 bytes: true exactly when the trimmed text ends with `.mec`",
                 functions=["looks_like_mech_include (src/mechfs.rs, extracted verbatim)"], bounds="printable ASCII, <= 7 bytes", unwind=10, tier="quick"))
+    # (b) the include expander itself over a symbolic file system (see SHIM): expand_mechdown_includes -> _recursive -> _include_tokens
+    FNS2 = FNS + ["expand_mechdown_include_tokens", "expand_mechdown_includes", "expand_mechdown_includes_recursive"]
+    items2 = {n: extract_fn(src, n) for n in FNS2}
+    for (n0, n1, n2, tr) in INC_SHAPES:
+        h = H("c20_includes_%d_%d_%d" % (n0, n1, n2), "    " + HBODY % {"n0": n0, "n1": n1, "n2": n2}, (CRATE2, "src/lib.rs"), domain="accept",
+              key="includes/%d.%d.%d" % (n0, n1, n2),
+              desc="expand_mechdown_includes on a symbolic file system: a.mec (%d lines, entry), b.mec (%d lines, may be missing), c.mec (%d lines, may be "
+                   "missing); every line is one of 11 kinds (text, include of a/b/c, indented include, inline braces, brace expression, ``` / ```` / ~~~ "
+                   "fences, 4-space-indented fence): the result equals the textual substitution of the include graph, a reachable cycle gives the "
+                   "circular-include error, a reachable missing file the include-failed error, fenced lines are untouched" % (n0, n1, n2),
+              functions=["expand_mechdown_includes", "expand_mechdown_includes_recursive", "expand_mechdown_include_tokens", "standalone_braced_content",
+                         "looks_like_mech_include", "code_fence_delimiter", "is_code_fence_close (src/mechfs.rs, extracted verbatim)"],
+              bounds="3 files in one directory, %d/%d/%d lines of 9 bytes, include depth <= 4" % (n0, n1, n2), unwind=9 * max(n0, 1) * max(n1, 1) * max(n2, 1) + 12, tier=tr)
+        h.attrs = ["#[kani::stub(::core::slice::memchr::memchr, verif_stub_memchr)]"]
+        h.off_reason = ("no verdict: symbolic execution of the String-building expander (push_str / split_inclusive / trim over symbolic contents) was still "
+                        "running after 900 s / 4.8 GB for the 2+1-line file system and after 520 s / 4.7 GB for the 2+2+1-line one (measured 2026-09-25)")
+        hs.append(h)
+    cargo2 = '[package]\nname = "vx-mechfs-inc"\nversion = "0.0.0"\nedition = "2024"\n\n[lib]\npath = "src/lib.rs"\n\n[lints.rust]\nunexpected_cfgs = { level = "allow" }\n'
+    lib2 = "#![allow(warnings)]\n" + SHIM + "\n// extracted verbatim from /repo/src/mechfs.rs\n" + "\n\n".join(items2[n] for n in FNS2) + "\n\n#[cfg(kani)]\n"
     cargo = '[package]\nname = "vx-mechfs"\nversion = "0.0.0"\nedition = "2024"\n\n[lib]\npath = "src/lib.rs"\n\n[lints.rust]\nunexpected_cfgs = { level = "allow" }\n'
     lib = "#![allow(warnings)]\n// extracted verbatim from /repo/src/mechfs.rs\n" + "\n\n".join(items[n] for n in FNS) + "\n\n#[cfg(kani)]\n"
     return {
         "harnesses": hs,
-        "standalone": {CRATE: {"pkg": "vx-mechfs", "cargo": cargo, "lib_prelude": lib}},
-        "extracted": {n: hashlib.sha256(items[n].encode()).hexdigest() for n in FNS},
+        "standalone": {CRATE: {"pkg": "vx-mechfs", "cargo": cargo, "lib_prelude": lib},
+                       CRATE2: {"pkg": "vx-mechfs-inc", "cargo": cargo2, "lib_prelude": lib2, "mod_prelude": ORACLE}},
+        "extracted": {n: hashlib.sha256(items2[n].encode()).hexdigest() for n in FNS2},
         "explanation": "Kani/CBMC over the line classifiers of the include expander, extracted verbatim from src/mechfs.rs at run time, on every ASCII "
                        "line up to the bound, against a byte-scanning reference written in the harness",
         "bounds": "ASCII lines of <= %d bytes (7 for the `.mec` test)" % N,
         "outside": ["expand_mechdown_includes_recursive / expand_mechdown_include_tokens: the include graph, cycle detection, missing files, "
-                    "relative path resolution (they work on the real file system through Path::canonicalize, File::open and a HashSet<PathBuf>)",
+                    "relative path resolution.  A harness over a symbolic three-file system (shim Path/File/HashSet, structural reference expansion) "
+                    "exists (c20_includes_*, tier off) and got no verdict: see excluded_no_verdict",
                     "non-ASCII lines (multi-byte characters after the fence markers)", "lines longer than %d bytes" % N],
         "caps": {"quick_timeout": 900, "thorough_timeout": 1800},
     }
